@@ -488,6 +488,43 @@ func runTruncateBig(c *core.Ctx) {
 	}
 }
 
+// runTruncateCSV: sequence data in CSV (what obicsv writes: id, count, sequence columns), 2-4 MiB once
+// decompressed, cut after the part of the file the format detector looks at.
+func runTruncateCSV(c *core.Ctx) {
+	codec := gen.Codecs[c.Idx%len(gen.Codecs)]
+	var sb strings.Builder
+	sb.WriteString("id,count,sequence\n")
+	n := 25000 + c.Rng.Intn(15000)
+	for i := 0; i < n; i++ {
+		fmt.Fprintf(&sb, "seq%d,%d,%s\n", i, 1+c.Rng.Intn(9), gen.DNA(c.Rng, 40+c.Rng.Intn(80)))
+	}
+	text := []byte(sb.String())
+	comp, err := gen.Compress(codec, text)
+	if err != nil {
+		c.Inconclusive("cannot compress: " + err.Error())
+		return
+	}
+	base := filepath.Join(c.Dir, fmt.Sprintf("seqs%d.csv%s", c.Idx, gen.CodecExt(codec)))
+	defer os.Remove(base)
+	tg := []target{{"obiconvert:file", "obiconvert", nil, false, ""}, {"obicount:file", "obicount", nil, false, ""}}
+	os.WriteFile(base, comp, 0o644)
+	for _, t := range tg {
+		if intact := runCmd(c, t, base); intact.Exit != 0 {
+			c.Violate("intact-rejected:csv:"+t.name, "the intact compressed CSV file is rejected", map[string]any{"codec": codec, "records": n, "stderr": cmdx.Tail(intact.Stderr, 800)})
+			return
+		}
+	}
+	c.Sample(map[string]any{"codec": codec, "format": "csv", "records": n, "decompressed_bytes": len(text), "compressed_bytes": len(comp), "faults": "truncation between 35 % and the last byte of the compressed file"})
+	for i := 0; i < c.Pick(5, 16); i++ {
+		k := len(comp)*35/100 + c.Rng.Intn(len(comp)*65/100-1)
+		if i == 0 {
+			k = len(comp) - 1 - c.Rng.Intn(8)
+		}
+		os.WriteFile(base, comp[:k], 0o644)
+		checkTrunc(c, codec, "csv", tg[i%len(tg)], base, k, len(comp), n)
+	}
+}
+
 // runTruncateHuge: files larger than 32 MiB on disk (multi-stream files: a 3 MB member repeated),
 // damaged in their last stream - what a reader that treats big files differently (another decoder,
 // a helper process, memory mapping) must still report. xz, bzip2, zstd and gzip in turn.
@@ -921,13 +958,14 @@ func init() {
 	}
 	subs = append(subs, core.Sub{Name: "gzip-stdin-asan", N: core.Const(4, 24), TimeoutS: 3000, Run: runTruncateAsan})
 	subs = append(subs, core.Sub{Name: "truncate-big", N: core.Const(16, 48), TimeoutS: 3000, Run: runTruncateBig})
+	subs = append(subs, core.Sub{Name: "truncate-csv", N: core.Const(4, 16), TimeoutS: 3000, Run: runTruncateCSV})
 	subs = append(subs, core.Sub{Name: "truncate-huge", N: core.Const(2, 4), Shard: 1, TimeoutS: 3000, Run: runTruncateHuge})
 	subs = append(subs, core.Sub{Name: "readerr", N: core.Const(32, 128), Run: runReadErr})
 	core.Register(&core.Property{
 		ID:    "C17",
 		Level: "fault_enumeration",
 		Rule: "fault points on compressed FASTA/FASTQ files (gzip, bzip2, xz, zstd; one member/frame each; 1..3000 records): truncation at byte k (every k from 6 for files up to 40 bytes in quick / 4 KiB in thorough, else the first and last 12 offsets plus 40/200 sampled ones), single bit flips (every bit up to 1 KiB in thorough, sampled otherwise), through obiconvert / obicount / obigrep with a file argument and, for gzip, obiconvert reading stdin; plus the four Read* functions over a reader returning a non-EOF error after k bytes (helper process). Oracle: exit status (truncation, read error => non-zero; bit flip => non-zero or output identical to the intact run). " +
-			"Added later: decoder-error oracle for bit flips, forced-format and two-file targets (after a plain file and after an intact file of the same codec), damaged mate file, compressed EMBL/GenBank, read errors delivered alone / with data / once only, files of 2-3 MiB and long reads, gzip/zstd streams flushed between records and cut at the flush points, the xz block-header-size bits on every target, AddressSanitizer runs of the stdin (C) reader; a process killed by a memory fault is a violation. Files made of several members / streams / frames (cuts and bit flips in the header of a later member; a cut exactly between two members is not a fault), truncate-huge: multi-stream files of more than 32 MiB damaged in their last stream. " +
+			"Added later: decoder-error oracle for bit flips, forced-format and two-file targets (after a plain file and after an intact file of the same codec), damaged mate file, compressed EMBL/GenBank, read errors delivered alone / with data / once only, files of 2-3 MiB and long reads, gzip/zstd streams flushed between records and cut at the flush points, the xz block-header-size bits on every target, AddressSanitizer runs of the stdin (C) reader; a process killed by a memory fault is a violation. Files made of several members / streams / frames (cuts and bit flips in the header of a later member; a cut exactly between two members is not a fault), truncate-huge: multi-stream files of more than 32 MiB damaged in their last stream. truncate-csv: sequence data in CSV (2-4 MiB once decompressed) cut beyond what the format detector looks at. " +
 			"distinct_nontrivial = distinct (fault kind, codec or format, command+transport, size class, region header/body/trailer) classes exercised",
 		Assume:        []string{"each compressed file is a single member/frame, so every proper prefix of at least 6 bytes is an invalid stream", "stdin is only exercised with gzip (the stdin reader is zlib based)"},
 		Subs:          subs,
